@@ -248,6 +248,8 @@ def processLine (st : St) (line : String) : IO St := do
             for (cl, ft) in fails do
               IO.println s!"PROPFAIL case={st.caseId} clause={cl} feature={ft} op={opS} impl={(obsS.take 160).toString}"
               st := { st with stats := st.stats.bump "propfail" }
+            -- a broken pool is reported once: the rest of the case is only compared with the model
+            if ¬ fails.isEmpty then st := { st with inContract := false }
             st := { st with stats := st.stats.bump "oracle_ops" }
         else st := { st with stats := st.stats.bump "ops_out_of_contract" }
         st := { st with impl := after }
